@@ -52,7 +52,7 @@ inline void show(std::ostream& o, bool v) { o << (v ? "True" : "False"); }
 inline void show(std::ostream& o, int v) { o << v; }
 inline void show(std::ostream& o, long v) { o << v; }
 inline void show(std::ostream& o, long long v) { o << v; }
-inline void show(std::ostream& o, double v) { char b[64]; std::snprintf(b, sizeof b, "%.17gf", v); o << b; }
+inline void show(std::ostream& o, double v) { char b[64]; if (v == 0) v = 0; std::snprintf(b, sizeof b, "%.17gf", v); o << b; }  // the sign of a zero is not compared: g++ 12 folds `0.0f - (float)i` to `-(float)i` (-0 for i == 0; clang and IEEE give +0)
 inline void show(std::ostream& o, float v) { show(o, (double)v); }
 inline void show(std::ostream& o, const std::string& s) {
 	static const char* hex = "0123456789abcdef";
@@ -451,7 +451,7 @@ def canon(v: Any, classes: dict[str, list[str]]) -> str:
 	if t is int:
 		return str(v)
 	if t is float:
-		return '%.17gf' % v   # the suffix keeps 1.0 apart from 1
+		return '%.17gf' % (v if v != 0 else 0.0)   # the suffix keeps 1.0 apart from 1; the sign of a zero is not compared (see show(double) in the prelude)
 	if t is str:
 		return '"' + ''.join(c if 32 <= ord(c) < 127 and c not in '"\\' else '\\x%02x' % ord(c) for c in v) + '"'
 	if t is list:
